@@ -444,6 +444,16 @@ def history_oracle(ctx, tles, fresh, nseq):
         descs = [gen_call(ctx.rng, ep) for _ in range(n)]
         if si % 3 == 0:
             descs[ctx.rng.randrange(n)] = gen_call(ctx.rng, ep, ["orbit"])
+        if si % 4 == 1:
+            # the same instant asked for in two time units on one object (equal and hash-equal as datetime64
+            # scalars, but different queries: the result's resolution follows the argument's)
+            us = ep + int(ctx.rng.uniform(-1.0, 3.0) * 86400e6)
+            pair = [{"q": "node", "t": ["dt64", "ns", us * 1000]}, {"q": "node", "t": ["dt64", "us", us]}]
+            if ctx.rng.random() < 0.5:
+                pair.reverse()
+            descs = pair + descs[:8]
+            if ctx.rng.random() < 0.5:
+                descs.insert(2, {"q": "orbit", "t": ["dt64", "us", us + 3600 * 10**6], "tbus": False, "as_float": True})
         o = mk(tle)
         handed_out = []
         tle0, tab0 = tle_hash(o), tables_hash()
